@@ -7,7 +7,7 @@ from .guardlib import gval, comparisons, lt_true, ge_true
 
 MANIFEST = {
     "text": "Invariant and commit-discipline rules on BufferQueue: no empty buffer is ever stored (every push is on the false edge of a len32()==0 test; every in-place shrink of the front buffer is followed by an emptiness test that pops it), eat() mutates nothing before the whole pattern matched, pop_except_from touches only the front buffer; SmallCharSet::contains tests exactly bit n for n<64. Plus equality of every function of buffer_queue.rs and smallcharset.rs with its reviewed normal form. eat() answers 'need more' only for an empty queue or where the buffered text ran out after matching so far (R13.2).",
-    "note": 'Decides R13.1-R13.4. Not decided: index arithmetic inside eat() and nonmember_prefix_len beyond equality with the reviewed normal forms. Round 6: push_front/push_back add exactly one buffer, eat() commits from the front (R13.6). Round 7: FromSet only for an empty non-member prefix (R13.7).',
+    "note": 'Decides R13.1-R13.4. Not decided: index arithmetic inside eat() and nonmember_prefix_len beyond equality with the reviewed normal forms. Round 6: push_front/push_back add exactly one buffer, eat() commits from the front (R13.6). Round 7: FromSet only for an empty non-member prefix (R13.7). Round 8: R13.8 eat()\'s scan and commit as a transcription over a precise normal form (the index arithmetic is now decided), run taken = run removed, whole-queue operations.',
     "technique": 'pairing / who-may-mutate rules over function normal forms + reviewed normal-form comparison',
 }
 LEVEL = "other"
